@@ -146,7 +146,11 @@ class _STIXBase(collections.abc.Mapping):
         extensions = kwargs.get("extensions")
         registered_toplevel_extension_props = {}
         has_unregistered_toplevel_extension = False
-        if isinstance(extensions, collections.abc.Mapping):
+        # (Only STIX 2.1 objects, which have a type, can carry such
+        # extensions; embedded types and STIX 2.0 objects can not.)
+        if isinstance(extensions, collections.abc.Mapping) \
+                and "type" in self._properties \
+                and not isinstance(self, stix2.v20._STIXBase20):
             for ext_id, ext in extensions.items():
                 if isinstance(ext, collections.abc.Mapping) and \
                         ext.get("extension_type") == "toplevel-property-extension":
